@@ -165,6 +165,10 @@ def check(ctx):
     if f is not None:
         ctx.must_follow(SC, Call(AO + "store", on=ED + ".co", transitive=False), Call(A("(swap|load)"), on=ED + ".deadline", transitive=False), "arm-publish/recheck-after-publish",
                         "after publishing, store_co looks at the deadline recorded when the timer was armed")
+        # (seed C18-3) the recorded deadline belongs to ONE operation: store_co consumes it (swap(0) / store(0)) on every path, so it can
+        # never make a later operation on the same socket - possibly one without any timeout - time out
+        ctx.must_follow(SC, Call(AO + "store", on=ED + ".co", transitive=False), Call(A("(swap|store|take)"), on=ED + ".deadline", transitive=False), "arm-publish/deadline-consumed",
+                        "store_co clears the deadline it looks at: a stale deadline would time out later operations on the socket at once")
         ge = lambda a: a.kind == "cmp" and ((a.op == "Ge" and is_call_result(r"may::timeout_list::now")(a.a)) or (a.op == "Le" and is_call_result(r"may::timeout_list::now")(a.b)))
         ctx.guarded(SC, Call(r"may::yield_now::set_co_para", transitive=False), ge, "arm-publish/timedout-only-after-deadline", "store_co delivers TimedOut only when the deadline has passed",
                     rule="R-EXIT", pred_label="edge `now() >= deadline`")
